@@ -78,6 +78,12 @@ CLAIMED = {
                   'with the counter seeded around 2^31 and 2^32 - each compared with the same call in a fresh process.',
              design='4/C15',
              note='Trusted: hand model State.v (access order read off the source), utapdump, the grammar reader. bison\'s stacks are local and outside the model. Known finding: C15-position-wrap.'),
+ 'C04': dict(technique='Coq proof that the reader-to-builder composition is the identity on well-formed template elements (induction over locations, branchpoints, edges and labels); generated-model correspondence of the real document, the extracted model and the generator',
+             text='C04_reader_builder_identity: for every well-formed <template> element of any size, the callbacks the reader issues, run through the model of DocumentBuilder, append exactly the mirroring document template '
+                  '(locations in order with names / _id names, invariant, rate, flags; branchpoints; init; one edge per transition with resolved end points, controllable flag, selects in order, last label of each other kind) and change nothing else; '
+                  'tied by hundreds to thousands of generated models whose real document dump must equal the generator\'s model (and the extracted Coq model must agree), including parameters, declarations and process argument binding.',
+             design='4/C04',
+             note='Trusted: hand model DocModel.v, docgen.py (generator, renderer, dump parser), utapdump. The libxml2 event level and declaration text are outside the Coq model; partial instantiation and LSC are not generated.'),
 }
 NOT_YET = 'check not built yet in this revision (work in progress, see DESIGN.md section 7 staging)'
 m = dict(version=1, setup_cmd='tools/setup.sh',
